@@ -181,3 +181,16 @@ Example C05_trivia_nonvacuous :
   TriviaProofs.strip_trivia t1 = t2 /\ t1 <> t2 /\
   exists s ms, Grammar.parse_pure 200 t2 = Peg.Ok s ms /\ TriviaProofs.rmap Grammar.is_trivia t1 (Grammar.parse_pure 200 t1) = Peg.Ok s ms /\ s = 5%nat.
 Proof. exact TriviaProofs.ex_trivia. Qed.
+
+Theorem C05_memo_parse_ignores_trivia : forall n1 n2 toks r1 st1 r2 st2,
+  Grammar.parse_memo n1 toks = (r1, st1) -> Grammar.parse_memo n2 (TriviaProofs.strip_trivia toks) = (r2, st2) ->
+  r1 <> Peg.Fuel -> r2 <> Peg.Fuel -> r2 = TriviaProofs.rmap Grammar.is_trivia toks r1.
+Proof. exact TriviaProofs.oal_parse_memo_ignores_trivia. Qed.
+Print Assumptions C05_memo_parse_ignores_trivia.
+
+Example C05_moving_nonvacuous :
+  KeyMap.moved KeyMap.rot KeyMap.idp KeyMap.ex_perm_P KeyMap.ex_move_P' /\
+  exists r, Eval.eval_program false KeyMap.ex_perm_P 50 KeyMap.ex_perm_rs = Eval.Ok r /\
+            Eval.eval_program false KeyMap.ex_move_P' 50 (map (KeyMap.km_expr KeyMap.rot KeyMap.idp) KeyMap.ex_perm_rs) =
+            Eval.Ok (KeyMap.km_result KeyMap.ids KeyMap.rot KeyMap.idp r).
+Proof. split; [exact KeyMap.ex_moved|exact KeyMap.ex_move_declarations]. Qed.
